@@ -6,6 +6,7 @@ From EV Require Import Base.Bytes.
 Import ListNotations.
 Ltac Zify.zify_post_hook ::= Z.div_mod_to_equations.
 Open Scope N_scope.
+Set Default Timeout 30.
 
 Record codec (A : Type) := {
   enc : A -> bytes;
@@ -18,7 +19,7 @@ Arguments enc {A}. Arguments dec {A}. Arguments wf {A}. Arguments elen {A}.
 Definition Exact {A} (c : codec A) := forall bs v rest, dec c bs = Some (v, rest) -> bs = enc c v ++ rest.
 Definition DecWf {A} (c : codec A) := forall bs v rest, dec c bs = Some (v, rest) -> wf c v = true.
 Definition Complete {A} (c : codec A) := forall v rest, wf c v = true -> dec c (enc c v ++ rest) = Some (v, rest).
-Definition LenOk {A} (c : codec A) := forall v, elen c v = N.of_nat (length (enc c v)).
+Definition LenOk {A} (c : codec A) := forall v, wf c v = true -> elen c v = N.of_nat (length (enc c v)).
 Record Lawful {A} (c : codec A) := { l_exact : Exact c; l_wf : DecWf c; l_complete : Complete c; l_len : LenOk c }.
 Arguments l_exact {A c}. Arguments l_wf {A c}. Arguments l_complete {A c}. Arguments l_len {A c}.
 
@@ -161,7 +162,7 @@ Proof. intros [ea wa ca' la] [eb wb cb' lb]. split; red; cbn.
   - intros bs [a b] rest H. destruct (dec ca bs) as [[a' r]|] eqn:Da; [|discriminate]. destruct (dec cb r) as [[b' r']|] eqn:Db; [|discriminate]. inversion H; subst.
     apply wa in Da. apply wb in Db. now rewrite Da, Db.
   - intros [a b] rest H. apply andb_true_iff in H as [Ha Hb]. rewrite <- app_assoc, ca' by assumption. now rewrite cb'.
-  - intros [a b]. rewrite app_length, Nnat.Nat2N.inj_add, la, lb. reflexivity. Qed.
+  - intros [a b] H. apply andb_true_iff in H as [Ha Hb]. rewrite app_length, Nnat.Nat2N.inj_add, la, lb by assumption. reflexivity. Qed.
 
 (* ---- dependent pair: the codec of the second component is selected by the first ---- *)
 Definition c_dep {A B} (ca : codec A) (cb : A -> codec B) : codec (A * B) :=
@@ -176,7 +177,7 @@ Proof. intros [ea wa ca' la] Lb. split; red; cbn.
   - intros bs [a b] rest H. destruct (dec ca bs) as [[a' r]|] eqn:Da; [|discriminate]. destruct (dec (cb a') r) as [[b' r']|] eqn:Db; [|discriminate]. inversion H; subst.
     apply wa in Da. apply (l_wf (Lb a)) in Db. now rewrite Da, Db.
   - intros [a b] rest H. apply andb_true_iff in H as [Ha Hb]. rewrite <- app_assoc, ca' by assumption. now rewrite (l_complete (Lb a)).
-  - intros [a b]. rewrite app_length, Nnat.Nat2N.inj_add, la, (l_len (Lb a)). reflexivity. Qed.
+  - intros [a b] H. apply andb_true_iff in H as [Ha Hb]. rewrite app_length, Nnat.Nat2N.inj_add, la, (l_len (Lb a)) by assumption. reflexivity. Qed.
 
 (* ---- conversion through a partial view: B is the in-memory type, A the wire tuple ---- *)
 Definition c_conv {A B} (c : codec A) (to : A -> option B) (from : B -> A) (wfB : B -> bool) : codec B :=
@@ -195,7 +196,7 @@ Proof. intros [e w cp l] H1 H3. split; red; cbn.
   - intros bs b rest H. destruct (dec c bs) as [[a r]|] eqn:D; [|discriminate]. destruct (to a) as [b'|] eqn:T; [|discriminate]. inversion H; subst.
     pose proof (w _ _ _ D) as Wa. destruct (H1 _ _ Wa T) as [-> ->]. now rewrite Wa.
   - intros b rest H. apply andb_true_iff in H as [Hb Hc]. rewrite cp by assumption. now rewrite H3.
-  - intros b. apply l. Qed.
+  - intros b H. apply andb_true_iff in H as [_ H]. now apply l. Qed.
 
 (* ---- n elements in sequence ---- *)
 Fixpoint vn_dec {A} (c : codec A) (n : nat) (bs : bytes) : option (list A * bytes) :=
@@ -210,8 +211,9 @@ Proof. intros [e w _ _]. induction n as [|n IH]; cbn; intros bs l rest H.
 Lemma vn_complete {A} (c : codec A) : Lawful c -> forall l rest, forallb (wf c) l = true -> vn_dec c (length l) (vn_enc c l ++ rest) = Some (l, rest).
 Proof. intros [_ _ cp _]. induction l as [|a l IH]; cbn; intros rest H; [reflexivity|].
   apply andb_true_iff in H as [Ha Hl]. unfold vn_enc. cbn. rewrite <- app_assoc, cp by assumption. fold (vn_enc c l). now rewrite IH. Qed.
-Lemma vn_len_ok {A} (c : codec A) : Lawful c -> forall l, vn_len c l = N.of_nat (length (vn_enc c l)).
-Proof. intros L. induction l as [|a l IH]; [reflexivity|]. unfold vn_enc in *. cbn. rewrite app_length, Nnat.Nat2N.inj_add, <- IH, (l_len L). reflexivity. Qed.
+Lemma vn_len_ok {A} (c : codec A) : Lawful c -> forall l, forallb (wf c) l = true -> vn_len c l = N.of_nat (length (vn_enc c l)).
+Proof. intros L. induction l as [|a l IH]; intros F; [reflexivity|]. cbn [forallb] in F. apply andb_true_iff in F as [Fa Fl].
+  unfold vn_enc in *. cbn [map concat vn_len fold_right]. rewrite app_length, Nnat.Nat2N.inj_add, <- IH, (l_len L) by assumption. reflexivity. Qed.
 (* exactly n elements, n fixed from outside (the witnesses of a transaction: one per input / output) *)
 Definition c_vecn {A} (c : codec A) (n : nat) : codec (list A) :=
   {| enc := vn_enc c; dec := vn_dec c n; wf := fun l => Nat.eqb (length l) n && forallb (wf c) l; elen := vn_len c |}.
@@ -220,7 +222,7 @@ Proof. intros L. split; red; cbn.
   - intros bs l rest H. now apply (vn_exact c L) in H as (-> & _ & _).
   - intros bs l rest H. apply (vn_exact c L) in H as (_ & <- & F). now rewrite Nat.eqb_refl.
   - intros l rest H. apply andb_true_iff in H as [H F]. apply Nat.eqb_eq in H. subst n. now apply vn_complete.
-  - now apply vn_len_ok. Qed.
+  - intros l H. apply andb_true_iff in H as [_ F]. now apply vn_len_ok. Qed.
 
 (* ---- length-prefixed vector with an element-count cap (Vec<T>: len * size_of::<T>() <= MAX_VEC_SIZE) ---- *)
 Definition c_vec {A} (c : codec A) (maxn : N) : codec (list A) :=
@@ -238,7 +240,7 @@ Proof. intros L. destruct c_varint_lawful as [ve vw vc vl]. split; red; cbn [c_v
   - intros l rest H. apply andb_true_iff in H as [H F]. apply andb_true_iff in H as [H1 H2]. apply N.leb_le in H1.
     rewrite <- app_assoc. pose proof (vc (N.of_nat (length l)) (vn_enc c l ++ rest) H2) as E. cbn in E. rewrite E.
     destruct (N.ltb_spec maxn (N.of_nat (length l))); [lia|]. rewrite Nnat.Nat2N.id. now apply vn_complete.
-  - intros l. rewrite app_length, Nnat.Nat2N.inj_add, <- (vn_len_ok c L). pose proof (vl (N.of_nat (length l))) as E. cbn in E. now rewrite E. Qed.
+  - intros l H. apply andb_true_iff in H as [H F]. apply andb_true_iff in H as [_ H2]. rewrite app_length, Nnat.Nat2N.inj_add, <- (vn_len_ok c L) by assumption. pose proof (vl (N.of_nat (length l)) H2) as E. cbn [c_varint elen enc] in E. now rewrite E. Qed.
 
 (* ---- length-prefixed byte string with a byte cap (Vec<u8>: len <= MAX_VEC_SIZE) ---- *)
 Definition c_varbytes (maxn : N) : codec bytes :=
@@ -256,7 +258,7 @@ Proof. destruct c_varint_lawful as [ve vw vc vl]. split; red; cbn [c_varbytes en
   - intros b rest H. apply andb_true_iff in H as [H1 H2]. apply N.leb_le in H1.
     rewrite <- app_assoc. pose proof (vc (N.of_nat (length b)) (b ++ rest) H2) as E. cbn in E. rewrite E.
     destruct (N.ltb_spec maxn (N.of_nat (length b))); [lia|]. rewrite Nnat.Nat2N.id. apply take_app.
-  - intros b. rewrite app_length, Nnat.Nat2N.inj_add. pose proof (vl (N.of_nat (length b))) as E. cbn in E. now rewrite E. Qed.
+  - intros b H. apply andb_true_iff in H as [_ H2]. rewrite app_length, Nnat.Nat2N.inj_add. pose proof (vl (N.of_nat (length b)) H2) as E. cbn [c_varint elen enc] in E. now rewrite E. Qed.
 
 (* ---- restriction by a predicate on the decoded value (e.g. point validity, proof header rules) ---- *)
 Definition c_guard {A} (c : codec A) (p : A -> bool) : codec A :=
@@ -267,4 +269,4 @@ Proof. intros [e w cp l]. split; red; cbn.
   - intros bs v rest H. destruct (dec c bs) as [[a r]|] eqn:D; [|discriminate]. destruct (p a) eqn:P; [|discriminate]. inversion H; subst. now apply e.
   - intros bs v rest H. destruct (dec c bs) as [[a r]|] eqn:D; [|discriminate]. destruct (p a) eqn:P; [|discriminate]. inversion H; subst. now rewrite (w _ _ _ D).
   - intros v rest H. apply andb_true_iff in H as [H P]. now rewrite cp, P.
-  - exact l. Qed.
+  - intros v H. apply andb_true_iff in H as [H _]. now apply l. Qed.
